@@ -269,12 +269,25 @@ class SchemaRaises(SchemaBase):
         def wrapped_fn(*args, **kwargs):
             check_args = args
             check_kwargs = kwargs
+            more_positional = []
             try:
                 # name the values the way Python binds them (defaults, *args, keyword only)
                 bound_args = type_check_signature.bind(*args, **kwargs)
                 bound_args.apply_defaults()
                 check_args = []
                 check_kwargs = dict(bound_args.arguments)
+                for p_name, p_def in type_check_signature.parameters.items():
+                    if p_def.kind is p_def.VAR_KEYWORD:
+                        # keywords caught by **kwargs are named arguments
+                        check_kwargs.update(check_kwargs.pop(p_name, {}))
+                    elif p_def.kind is p_def.VAR_POSITIONAL:
+                        # *args: every element stands for the name (checked below), none if empty
+                        extra_positional = check_kwargs.pop(p_name, ())
+                        if len(extra_positional) > 0:
+                            check_kwargs[p_name] = extra_positional[0]
+                            more_positional = more_positional + [
+                                (p_name, v) for v in extra_positional[1:]
+                            ]
             except TypeError:
                 pass  # not a valid call: report by position as before
             type_check_self.check_args(
@@ -283,6 +296,15 @@ class SchemaRaises(SchemaBase):
                 args=check_args,
                 kwargs=check_kwargs,
             )
+            for p_name, v in more_positional:
+                more_kwargs = dict(check_kwargs)
+                more_kwargs[p_name] = v
+                type_check_self.check_args(
+                    fname=type_check_fn_name,
+                    arg_names=type_check_arg_names,
+                    args=check_args,
+                    kwargs=more_kwargs,
+                )
             type_check_return_value = type_check_fn(*args, **kwargs)
             type_check_self.check_return(
                 fname=type_check_fn_name, return_value=type_check_return_value
